@@ -49,6 +49,8 @@ def import_table(fn):
                 core, sc = _scale(n.value)
                 if isinstance(core, ast.Call) and dotted(core.func) == "int" and core.args:
                     core = core.args[0]
+                if isinstance(core, ast.IfExp):       # `data[k] if <cond on data[k]> else <nominal>`
+                    core = core.body
                 mm = Q.match("%s[$k]" % row, core)
                 if mm is not None and isinstance(mm["k"], ast.Constant):
                     local.setdefault(n.targets[0].id, (mm["k"].value, sc))
@@ -169,6 +171,92 @@ def rule_mpc(ctx, repo, models):
     ctx.count("mpc_export_writes", len(et))
 
 
+def rule_mpc_branch(ctx, repo):
+    """MATPOWER branch record: ratio 0 means tap 1; the shift angle applies whenever it is non-zero. Evaluate the branch
+    classification of mpc2system over {ratio: 0, 1, other} x {angle: 0, non-zero}."""
+    from engine.ordertype import Interp, Unsupported
+    imp = F.function(repo, MPC, "mpc2system")
+    target = None
+    for lp in [n for n in walk_noscope(imp.fn) if isinstance(n, ast.For)]:
+        m = Q.match("mpc[$sec]", lp.iter)
+        if m and ast.literal_eval(m["sec"]) == "branch":
+            for st in lp.body:
+                if isinstance(st, ast.If) and "data[8]" in src(st.test):
+                    target = (lp, st)
+    if target is None:
+        raise AnalysisError("mpc2system: branch transformer classification vanished")
+    lp, st = target
+    tapn = phin = None
+    for c in ast.walk(lp):
+        if isinstance(c, ast.Call) and dotted(c.func) == "system.add" and c.args and getattr(c.args[0], "value", None) == "Line":
+            kw = {k.arg: k.value for k in c.keywords}
+            tapn, phin = src(kw.get("tap")), src(kw.get("phi"))
+    bad = []
+    for ratio in (0.0, 1.0, 1.05):
+        for ang in (0.0, 10.0):
+            class Row(dict):
+                pass
+            env = {"deg2rad": 0.5}
+            it = Interp(env)
+            # data[k] lookups: provide through a tiny override
+            vals = {8: ratio, 9: ang}
+
+            def ev(n):
+                if isinstance(n, ast.Subscript) and dotted(n.value) == lp.target.id and isinstance(n.slice, ast.Constant):
+                    return vals[n.slice.value]
+                if isinstance(n, ast.Compare):
+                    l = ev(n.left)
+                    r = ev(n.comparators[0])
+                    op = n.ops[0]
+                    if isinstance(op, ast.In):
+                        return l in r
+                    if isinstance(op, ast.NotIn):
+                        return l not in r
+                    return {ast.Eq: l == r, ast.NotEq: l != r, ast.Lt: l < r, ast.Gt: l > r, ast.LtE: l <= r, ast.GtE: l >= r}[type(op)]
+                if isinstance(n, ast.BoolOp):
+                    vs = [ev(v) for v in n.values]
+                    return all(vs) if isinstance(n.op, ast.And) else any(vs)
+                if isinstance(n, ast.UnaryOp) and isinstance(n.op, ast.Not):
+                    return not ev(n.operand)
+                if isinstance(n, (ast.Tuple, ast.List)):
+                    return [ev(e) for e in n.elts]
+                if isinstance(n, ast.Constant):
+                    return n.value
+                if isinstance(n, ast.BinOp) and isinstance(n.op, ast.Mult):
+                    return ev(n.left) * ev(n.right)
+                if isinstance(n, ast.Name):
+                    if n.id in loc:
+                        return loc[n.id]
+                    if n.id == "deg2rad":
+                        return 0.5
+                if isinstance(n, ast.IfExp):
+                    return ev(n.body) if ev(n.test) else ev(n.orelse)
+                raise Unsupported(src(n))
+            loc = {}
+            try:
+                # statements before the If that define helper locals from data[8]/data[9]
+                for pre in lp.body:
+                    if pre is st:
+                        break
+                    if isinstance(pre, ast.Assign) and isinstance(pre.targets[0], ast.Name) and ("data[8]" in src(pre.value) or "data[9]" in src(pre.value)):
+                        loc[pre.targets[0].id] = ev(pre.value)
+                body = st.body if ev(st.test) else st.orelse
+                for b_ in body:
+                    if isinstance(b_, ast.Assign) and isinstance(b_.targets[0], ast.Name):
+                        loc[b_.targets[0].id] = ev(b_.value)
+            except Unsupported as ex:
+                ctx.undecided("C13.mpc-branch", "mpc2system/branch", "front-end: %s" % ex, imp.W(st))
+                return
+            tap, phi = loc.get(tapn), loc.get(phin)
+            want_tap = 1.0 if ratio == 0.0 else ratio
+            want_phi = ang * 0.5
+            if tap != want_tap or phi != want_phi:
+                bad.append("ratio=%g angle=%g deg -> tap=%s phi=%s*deg2rad (expected tap=%g, phi=%g*deg2rad)" % (
+                    ratio, ang, tap, (phi / 0.5 if isinstance(phi, (int, float)) else phi), want_tap, ang))
+    ctx.check(not bad, "C13.mpc-branch", "mpc2system/branch", "6 (ratio, angle) classes: ratio 0 -> tap 1; shift angle imported whenever non-zero",
+              "; ".join(bad), imp.W(st))
+
+
 def rule_roundtrip(ctx, repo):
     # readers feed every record to system.add
     for rel in ("andes/io/xlsx.py", "andes/io/json.py"):
@@ -278,6 +366,7 @@ def _names(expr):
 def run(ctx):
     ctx.rule("C13.mpc-inverse", "every column written by system2mpc is read back by mpc2system into the same parameter with the "
              "inverse scale; bus type codes agree", 30)
+    ctx.rule("C13.mpc-branch", "branch records: tap/shift classification evaluated over all (ratio, angle) classes", 1)
     ctx.rule("C13.scatter", "cardinality-typed dataflow: additive quantities scattered through a device->bus index must accumulate", 2)
     ctx.rule("C13.roundtrip", "xlsx/json: writers emit the refreshed input-base view; readers feed every record to System.add; "
              "System.add allocation order", 7)
@@ -288,6 +377,7 @@ def run(ctx):
     repo = Repo()
     models = elab.load_models()
     rule_mpc(ctx, repo, models)
+    rule_mpc_branch(ctx, repo)
     rule_roundtrip(ctx, repo)
     rule_registry(ctx, repo)
     rule_dyr(ctx, repo, models)
